@@ -26,31 +26,38 @@ import (
 
 type txIndex struct {
 	mtx sync.Mutex
-	set map[string]bool // raw tx hash
+	set map[string]uint32 // raw tx hash -> DeliverTx code (Tendermint indexes failed transactions too)
 }
 
 func (ti *txIndex) has(h []byte) bool {
 	ti.mtx.Lock()
 	defer ti.mtx.Unlock()
+	_, ok := ti.set[string(h)]
+	return ok
+}
+
+func (ti *txIndex) code(h []byte) uint32 {
+	ti.mtx.Lock()
+	defer ti.mtx.Unlock()
 	return ti.set[string(h)]
 }
 
-func (ti *txIndex) add(h []byte) {
+func (ti *txIndex) add(h []byte, code uint32) {
 	ti.mtx.Lock()
-	ti.set[string(h)] = true
+	ti.set[string(h)] = code
 	ti.mtx.Unlock()
 }
 
 func (ti *txIndex) reset() {
 	ti.mtx.Lock()
-	ti.set = map[string]bool{}
+	ti.set = map[string]uint32{}
 	ti.mtx.Unlock()
 }
 
 var (
 	stubOnce  sync.Once
 	stubAddr  string
-	stubIndex = &txIndex{set: map[string]bool{}}
+	stubIndex = &txIndex{set: map[string]uint32{}}
 	stubNode  *node.Node
 	stubErr   error
 )
@@ -123,7 +130,12 @@ func stubHandler(w http.ResponseWriter, r *http.Request) {
 		fail(fmt.Sprintf("Tx (%X) not found", hash))
 		return
 	}
-	fmt.Fprintf(w, `{"jsonrpc":"2.0","id":%s,"result":{"hash":"%s","height":"1","index":0,"tx_result":{},"tx":""}}`, idOr(req.ID), hex.EncodeToString(hash))
+	// the indexed result carries the DeliverTx code, as Tendermint's indexer records it
+	txr := "{}"
+	if c := stubIndex.code(hash); c != 0 {
+		txr = fmt.Sprintf(`{"code":%d,"log":"failed"}`, c)
+	}
+	fmt.Fprintf(w, `{"jsonrpc":"2.0","id":%s,"result":{"hash":"%s","height":"1","index":0,"tx_result":%s,"tx":""}}`, idOr(req.ID), hex.EncodeToString(hash), txr)
 }
 
 func idOr(id json.RawMessage) string {
